@@ -77,8 +77,11 @@ def get_convergence_format(epsilon: float, max_decimals: int = 10) -> str:
 
     # Get number of decimal places needed to show changes above epsilon
     # Add 1 to ensure we can see changes until below epsilon
+    if not np.isfinite(epsilon):
+        # Infinite threshold (e.g. gamma = 0): no decimals needed
+        return ".0f"
     decimal_places = -int(np.floor(np.log10(epsilon))) + 1
-    # Cap at max_decimals
-    decimal_places = min(decimal_places, max_decimals)
+    # Cap at max_decimals, and never go below zero (thresholds >= 100)
+    decimal_places = max(min(decimal_places, max_decimals), 0)
 
     return f".{decimal_places}f"
